@@ -24,6 +24,9 @@ func init() {
 			// "corrupt input => exits non-zero, input untouched": the corruption must be noticed - the
 			// container checks (CRC, check, sizes, padding) of the xz reader
 			ruleXZReaderChecks(c, r, "lib:")
+			// corrupt .lzma input has no check value: the decoder itself must refuse impossible distances
+			ruleApplyOps(c, r, "lib:")
+			ruleDecoderBounds(c, r, "lib:")
 		},
 	})
 	register(&propCheck{
@@ -53,6 +56,7 @@ func init() {
 			ruleValidDictCap(c, r, "")
 			// files written by gxz announce a dictionary size that covers the encoder's window
 			ruleDictCapEncode(c, r, "lib:")
+			ruleCheckEncoding(c, r, "lib:")
 			ruleDeferResult(c, r, "")
 			ruleReaderWindow(c, r, "")
 			ruleGxzDataSafety(c, r, "")
